@@ -157,8 +157,15 @@ def fmt_decisions(dec):
 
 def compare(fx, body, spec, sname):
     """-> dict(missing=[sig], extra=[sig], matched=n, binding={site: name}, conflicts=[...])"""
-    cs = code_signatures(fx, body)
+    cs0 = code_signatures(fx, body)
     ss = spec_signatures(spec, sname)
+    # only decisions on fields that the format itself branches on label a path: a `match` / flag test the code makes on any other
+    # field (to refuse a value, to pick a default ...) does not change which bytes are read and is judged by other rules
+    subjects = {(d[0], d[1]) for (ev, dec) in ss for d in dec if d[0] in ('val', 'flag')}
+    cs = {}
+    for (ev, dec), sites in cs0.items():
+        dec2 = tuple(d for d in dec if d[0] not in ('val', 'flag') or (d[0], d[1]) in subjects)
+        cs.setdefault((ev, dec2), sites)
     missing = [k for k in ss if k not in cs]
     extra = [k for k in cs if k not in ss]
     binding = {}
